@@ -411,8 +411,13 @@ func c04SingleBox(r *sim.Run, disk []byte) {
 		b = &ref.Box{Type: string(raw[4:8]), Start: 0, Size: int64(len(raw)), Hdr: 8}
 		r.Probe("single-box-synthetic")
 	}
-	// optional extra damage local to this box: cut its tail or enlarge/shrink its size field
-	switch t.Draw(4) {
+	// optional extra damage local to this box: cut its tail or enlarge/shrink its size field (synthetic boxes carry
+	// their own inconsistencies already: most of them are left as generated)
+	dmg := t.Draw(4)
+	if string(raw[4:8]) != b.Type || (b.Start == 0 && b.Size == int64(len(raw)) && t.Chance(600)) {
+		dmg = 0
+	}
+	switch dmg {
 	case 1:
 		raw = raw[:t.Draw(len(raw)+1)]
 		r.Fault("box-tail-cut")
@@ -427,7 +432,7 @@ func c04SingleBox(r *sim.Run, disk []byte) {
 			r.Fault("box-size-deflated")
 		}
 	}
-	if t.Chance(200) {
+	if t.Chance(350) {
 		// the box is not the last thing in the buffer: bytes of a following box lie behind it (a decoder that trusts a
 		// count more than its own box size reads on into them)
 		tail := []byte{0x06, 0, 0, 0, 'm', 'd', 'a', 't', 0xff, 0xff, 0xff, 0xff, 0x7f, 0xff, 0xff, 0xff}
